@@ -142,9 +142,20 @@ structure Sys where
   emitted : List Down
   published : List Published
   now : Nat
+  /-- history variables (not part of the code's state): the uplink counters whose `AdvanceFCntUp`
+      succeeded and the downlink counters `NextFCntDn` handed out, per device, in the current
+      session and before the 16-bit counter wraps (a join, and the wrap, start a new epoch). -/
+  acceptedUp : List (Bytes × Nat) := []
+  issuedDn : List (Bytes × Nat) := []
   deriving Repr, Inhabited
 
-def Sys.init (db : DB) : Sys := ⟨db, [], [], [], [], [], 1⟩
+def Sys.init (db : DB) : Sys := { db := db, fob := [], scheduled := [], threads := [], emitted := [], published := [], now := 1 }
+
+/-- A new epoch of the counters of device `e` (join, or the 16-bit wrap). -/
+def forget (l : List (Bytes × Nat)) (e : Bytes) : List (Bytes × Nat) := l.filter (fun x => x.1 != e)
+/-- Counter `f` of device `e` was used; when it was the last one of the 16-bit space the epoch ends. -/
+def noteCounter (l : List (Bytes × Nat)) (e : Bytes) (f : Nat) : List (Bytes × Nat) :=
+  if f + 1 < 65536 then l ++ [(e, f)] else forget l e
 
 /-! ### storage operations (storage/device.go, messages.go, application.go) -/
 
@@ -156,6 +167,21 @@ def DB.updateState (db : DB) (d : Device) : Option DB :=
   if db.devices.any (·.eui == d.eui) then
     some { db with devices := db.devices.map (fun x => if x.eui == d.eui then { x with fcntDn := d.fcntDn, fcntUp := d.fcntUp, keyWarning := d.keyWarning } else x) }
   else none
+
+/-- `AdvanceFCntUp(eui, fcnt, keyWarning)`: one conditional UPDATE — rows of that EUI whose stored
+    uplink counter is not past `fcnt` get `fcnt+1` (16 bit) and the key-warning flag; NotFound if
+    no row was changed. -/
+def DB.advanceFCntUp (db : DB) (eui : Bytes) (fcnt : Nat) (kw : Bool) : Option DB :=
+  if db.devices.any (fun x => x.eui == eui && x.fcntUp ≤ fcnt) then
+    some { db with devices := db.devices.map (fun x => if x.eui == eui && x.fcntUp ≤ fcnt then { x with fcntUp := (fcnt + 1) % 65536, keyWarning := kw } else x) }
+  else none
+
+/-- `NextFCntDn(eui)`: in one transaction under the storage mutex, read the downlink counter of the
+    device, store counter+1 (16 bit), return the value read; NotFound if there is no such device. -/
+def DB.nextFCntDn (db : DB) (eui : Bytes) : Option (DB × Nat) :=
+  match db.byEUI eui with
+  | none => none
+  | some d => some ({ db with devices := db.devices.map (fun x => if x.eui == eui then { x with fcntDn := (d.fcntDn + 1) % 65536 } else x) }, d.fcntDn)
 
 /-- `UpdateDevice`: every column but the EUI and the application. -/
 def DB.updateDevice (db : DB) (d : Device) : Option DB :=
@@ -307,11 +333,15 @@ def stepUplink (E : BlockFn) (sys : Sys) (s : UpSt) (fault : Bool) : Sys × List
     else
       let d := if s.nmatch > 1 then { d with keyWarning := true } else d
       if fcnt ≥ d.fcntUp then
-        let d := { d with fcntUp := (fcnt + 1) % 65536 }
+        -- AdvanceFCntUp: the stored counter is checked again by the statement that moves it
         if fault then nextDevice sys s
-        else match sys.db.updateState d with
-          | some db => ({ sys with db := db }, [.uplink { s with pc := 2, cur := d }])
-          | none => nextDevice sys s
+        else match sys.db.advanceFCntUp d.eui fcnt d.keyWarning with
+          | some db => ({ sys with db := db, acceptedUp := noteCounter sys.acceptedUp d.eui fcnt },
+                        [.uplink { s with pc := 2, cur := { d with fcntUp := (fcnt + 1) % 65536 } }])
+          | none =>
+            -- the stored counter is already past this one (or the row is gone): fine for a relaxed device
+            if d.relaxed then (sys, [.uplink { s with pc := 2, cur := { d with fcntUp := (fcnt + 1) % 65536 } }])
+            else nextDevice sys s
       else (sys, [.uplink { s with pc := 2, cur := d }])   -- no storage operation in this case; `fault` has nothing to hit
   | 2 =>
     -- Decrypt, CreateUpstreamMessage
@@ -404,7 +434,8 @@ def stepJoin (E : BlockFn) (cfg : Config) (sys : Sys) (s : JoinSt) (fault : Bool
                       devAddr := if d.devAddr = 0 then s.newAddr else d.devAddr }
     if fault then (sys, [.done])
     else match sys.db.updateDevice d with
-      | some db => ({ sys with db := db }, [.join { s with pc := 5, dev := d }])
+      | some db => ({ sys with db := db, acceptedUp := forget sys.acceptedUp d.eui, issuedDn := forget sys.issuedDn d.eui },
+                    [.join { s with pc := 5, dev := d }])
       | none => (sys, [.done])
   | 5 =>
     -- SetJoinAcceptPayload
@@ -424,26 +455,29 @@ def stepEncoder (E D : BlockFn) (sys : Sys) (pc : Nat) (p : PHY) (c : Ctx) (byte
       else match sys.db.updateState d with
         | none => (sys, [.done])
         | some db =>
+          let sys := { sys with db := db, acceptedUp := forget sys.acceptedUp d.eui, issuedDn := forget sys.issuedDn d.eui }
           match encodeJoinAccept E D d.appKey p with
-          | .ok b => ({ sys with db := db }, [.encoder 1 p { c with device := d } b])
-          | _ => ({ sys with db := db }, [.done])
+          | .ok b => (sys, [.encoder 1 p { c with device := d } b])
+          | _ => (sys, [.done])
     | _ => ({ sys with emitted := sys.emitted ++ [⟨bytes, c.gw, 5, c.device.eui⟩] }, [.done])
   else if p.mhdr.mtype = mtUnconfirmedDataDown ∨ p.mhdr.mtype = mtConfirmedDataDown then
     match pc with
     | 0 =>
-      -- FCnt := FCntDn, EncodeMessage, then SetMessageSentTime (errors ignored)
-      let p := { p with mac := { p.mac with fhdr := { p.mac.fhdr with fcnt := c.device.fcntDn } } }
-      match encodeMessage E c.device.nwkSKey c.device.appSKey p with
-      | .ok b =>
-        let sys := if fault then sys else { sys with db := sys.db.setSent c.device.eui c.payloadCreate sys.now c.device.fcntUp, now := sys.now + 1 }
-        (sys, [.encoder 1 p c b])
-      | _ => (sys, [.done])
-    | 1 =>
-      let d := { c.device with fcntDn := (c.device.fcntDn + 1) % 65536 }
+      -- NextFCntDn: the counter comes from the store and is moved before the frame exists; then EncodeMessage
       if fault then (sys, [.done])
-      else match sys.db.updateState d with
-        | some db => ({ sys with db := db }, [.encoder 2 p { c with device := d } bytes])
+      else match sys.db.nextFCntDn c.device.eui with
         | none => (sys, [.done])
+        | some (db, f) =>
+          let sys := { sys with db := db, issuedDn := noteCounter sys.issuedDn c.device.eui f }
+          let p := { p with mac := { p.mac with fhdr := { p.mac.fhdr with fcnt := f } } }
+          let c := { c with device := { c.device with fcntDn := (f + 1) % 65536 } }
+          match encodeMessage E c.device.nwkSKey c.device.appSKey p with
+          | .ok b => (sys, [.encoder 1 p c b])
+          | _ => (sys, [.done])
+    | 1 =>
+      -- SetMessageSentTime (errors ignored)
+      let sys := if fault then sys else { sys with db := sys.db.setSent c.device.eui c.payloadCreate sys.now c.device.fcntUp, now := sys.now + 1 }
+      (sys, [.encoder 2 p c bytes])
     | _ => ({ sys with emitted := sys.emitted ++ [⟨bytes, c.gw, 1, c.device.eui⟩] }, [.done])
   else (sys, [.done])
 
@@ -484,7 +518,7 @@ def nextLabel (cfg : Config) : Thread → Option (String × String)
     | 0 => if s.p.mhdr.mtype ≠ mtUnconfirmedDataUp ∧ s.p.mhdr.mtype ≠ mtConfirmedDataUp then none
            else some ("GetDeviceByDevAddr", addrStr s.p.mac.fhdr.devAddr.toUint32)
     | 1 => if !s.cur.relaxed && s.cur.fcntUp > fcnt then none
-           else if fcnt ≥ s.cur.fcntUp then some ("UpdateDeviceState", euiStr s.cur.eui) else none
+           else if fcnt ≥ s.cur.fcntUp then some ("AdvanceFCntUp", euiStr s.cur.eui) else none
     | 2 => some ("CreateUpstreamMessage", euiStr s.cur.eui)
     | 3 => some ("GetApplicationByEUI", euiStr s.cur.appEUI)
     | 4 => if s.p.mhdr.mtype = mtConfirmedDataUp then some ("SetMessageAckFlag", euiStr s.cur.eui) else none
@@ -509,8 +543,8 @@ def nextLabel (cfg : Config) : Thread → Option (String × String)
     if p.mhdr.mtype = mtJoinAccept then
       (if pc = 0 then some ("UpdateDeviceState", euiStr c.device.eui) else some ("encoder.handoff", euiStr c.device.eui))
     else if p.mhdr.mtype = mtUnconfirmedDataDown ∨ p.mhdr.mtype = mtConfirmedDataDown then
-      (if pc = 0 then some ("SetMessageSentTime", euiStr c.device.eui)
-       else if pc = 1 then some ("UpdateDeviceState", euiStr c.device.eui) else some ("encoder.handoff", euiStr c.device.eui))
+      (if pc = 0 then some ("NextFCntDn", euiStr c.device.eui)
+       else if pc = 1 then some ("SetMessageSentTime", euiStr c.device.eui) else some ("encoder.handoff", euiStr c.device.eui))
     else none
   | .done => none
 
